@@ -8,7 +8,7 @@ Definition mv_op (pool : list eqrec) (rhs : list expr) (s : mstate) (x : sexp) :
   match x with
   | L [A 30; v] =>
       if negb (live s (nat_of_sexp v)) then (s, serr 9)
-      else (s, match get_value pool rhs (S (length (vars s))) s (nat_of_sexp v) with
+      else (s, match get_value pool rhs (2 * (length (vars s) + length (odef s)) + 4) s (nat_of_sexp v) with
                | VOk q => L [A 0; sQ (Qred q)]
                | VErr e => serr (verr_code e)
                end)
